@@ -277,7 +277,7 @@ def conclude(pid, tier, seed, t0, R, spec, proof, runs, ins, outs, fails, workdi
     elif proof_broken or corr_broken:
         # widen the search for a concrete failing input before reporting
         found = None
-        if widen and tier == 'quick' and 'plan' in spec and 'thorough' in spec['plan']:
+        if widen and tier == 'quick' and 'plan' in spec and 'thorough' in spec['plan'] and os.environ.get('VERIF_NO_WIDEN') != '1':
             try:
                 wplan = [dict(it, n=min(it.get('n', 1), 500)) for it in spec['plan']['thorough']]
                 paths2 = R.run_plan(pid + 'w', wplan, seed + 1, workdir, R.follow_flags(spec['owned']))
@@ -392,3 +392,17 @@ def replay(pid, path, R):
         print(f'VIOLATION property={pid} replay={path} no-failing-input-found')
         return 1
     return 0
+
+# ---------------------------------------------------------------------------------------------------
+# source ties: theorems about terms GENERATED from /repo's current source (tools/urgency2lean.py, tools/sql2lean.py)
+T_ = 'Tcs.Proofs.SqlTie.'
+PROPS['C12']['ties'] = [('Tcs.Proofs.UrgencySrcTie', ['Tcs.C12_src_for_days', 'Tcs.C12_src_for_versions_since']),
+                        (T_ + 'AddVersion', ['Tcs.sqlSrc_addVersion'])]
+PROPS['C13']['ties'] = [(T_ + 'All', ['Tcs.sqlSrc_tie']), (T_ + 'Open', ['Tcs.sqlSrc_open_statements'])]
+PROPS['C09']['ties'] = [(T_ + 'GetByParent', ['Tcs.sqlSrc_getByParent']), (T_ + 'GetVersion', ['Tcs.sqlSrc_getVersion'])]
+PROPS['C03']['ties'] = [(T_ + 'Begin', ['Tcs.sqlSrc_begin_immediate'])]
+PROPS['C04']['ties'] = [(T_ + 'CommitStmt', ['Tcs.sqlSrc_commit_stmt']), (T_ + 'Conn', ['Tcs.sqlSrc_conn_no_pragma']),
+                        (T_ + 'Open', ['Tcs.sqlSrc_open_statements']), (T_ + 'NoOther', ['Tcs.sqlSrc_no_other_sql'])]
+PROPS['C05']['ties'] = [(T_ + 'CommitStmt', ['Tcs.sqlSrc_commit_stmt']), (T_ + 'NoOther', ['Tcs.sqlSrc_no_other_sql'])]
+PROPS['C19']['ties'] = [(T_ + 'Open', ['Tcs.sqlSrc_open_statements']), (T_ + 'SetSnapshot', ['Tcs.sqlSrc_setSnapshot']),
+                        (T_ + 'GetClient', ['Tcs.sqlSrc_getClient'])]
